@@ -108,6 +108,8 @@ fn shape_index(c: &Conc, f: &TestFile, s: &Shape) -> i64 {
 pub enum Call {
     Iter(usize),
     Nth(usize),
+    /// a typed random access naming ANOTHER type than the file's: it fails with a mismatch
+    NthWrong(usize),
     Seek(usize),
     Count,
 }
@@ -120,6 +122,7 @@ pub fn parse_hist(h: &str) -> Vec<Call> {
             match k {
                 "i" => Call::Iter(n),
                 "n" => Call::Nth(n),
+                "w" => Call::NthWrong(n),
                 "s" => Call::Seek(n),
                 "c" => Call::Count,
                 _ => panic!("bad call {}", tok),
@@ -131,6 +134,7 @@ pub fn parse_hist(h: &str) -> Vec<Call> {
 fn errcode(e: &Error) -> i64 {
     match e {
         Error::MissingIndexFile => -2,
+        Error::MismatchShapeType { .. } => -4,
         _ => -3,
     }
 }
@@ -143,6 +147,9 @@ pub fn run_history(tr: &mut Trace, c: &Conc, f: &TestFile, with_idx: bool, compl
 /// (BufReader<File> sources; the .shx is simply absent when `with_idx` is false)
 #[allow(clippy::too_many_arguments)]
 pub fn run_history_at(tr: &mut Trace, c: &Conc, f: &TestFile, with_idx: bool, complete: bool, equal: bool, calls: &[Call], hist: &str, prop: &str, by_path: Option<&std::path::Path>) {
+    // (the complete Reader has no random access: failing typed accesses are left out of its histories)
+    let filtered: Vec<Call> = calls.iter().filter(|c| !(complete && matches!(c, Call::NthWrong(_)))).cloned().collect();
+    let calls = &filtered[..];
     let n = f.shapes.len();
     tr.run(json!({"ev": "reset", "kind": "reader", "n": n, "withIdx": with_idx, "complete": complete,
                   "equalSizes": equal, "t": f.t, "hist": hist, "prop": prop, "byPath": by_path.is_some()}));
@@ -233,6 +240,15 @@ fn drive_shapes<T: std::io::Read + std::io::Seek>(tr: &mut Trace, c: &Conc, f: &
                 };
                 json!({"ev": "nth", "i": i, "res": res})
             }
+            Call::NthWrong(i) => {
+                // Point for every file type but Point itself (then PolylineZ)
+                let res = if f.t != 1 {
+                    match rdr.read_nth_shape_as::<shapefile::Point>(*i) { None => -1, Some(Ok(_)) => -5, Some(Err(e)) => errcode(&e) }
+                } else {
+                    match rdr.read_nth_shape_as::<shapefile::PolylineZ>(*i) { None => -1, Some(Ok(_)) => -5, Some(Err(e)) => errcode(&e) }
+                };
+                json!({"ev": "nthfail", "i": i, "res": res})
+            }
             Call::Seek(k) => {
                 let res = match rdr.seek(*k) {
                     Ok(()) => 0,
@@ -294,6 +310,15 @@ where
                     Some(Err(e)) => errcode(&e),
                 };
                 json!({"ev": "nth", "i": i, "res": res})
+            }
+            Call::NthWrong(i) => {
+                // Point for every file type but Point itself (then PolylineZ)
+                let res = if f.t != 1 {
+                    match rdr.read_nth_shape_as::<shapefile::Point>(*i) { None => -1, Some(Ok(_)) => -5, Some(Err(e)) => errcode(&e) }
+                } else {
+                    match rdr.read_nth_shape_as::<shapefile::PolylineZ>(*i) { None => -1, Some(Ok(_)) => -5, Some(Err(e)) => errcode(&e) }
+                };
+                json!({"ev": "nthfail", "i": i, "res": res})
             }
             Call::Seek(k) => {
                 let res = match rdr.seek(*k) {
@@ -360,6 +385,17 @@ fn drive_complete<T: std::io::Read + std::io::Seek, D: std::io::Read + std::io::
                 };
                 json!({"ev": "iter", "lim": n + 1, "items": items, "rows": rows, "ended": err.is_empty(), "err": err, "hints": []})
             }
+            Call::NthWrong(i) => {
+                // the complete Reader has no random access: a typed read naming another type fails instead
+                let res = if f.t != 1 {
+                    match rdr.read_as::<shapefile::Point, dbase::Record>() { Ok(_) => -5, Err(e) => errcode(&e) }
+                } else {
+                    match rdr.read_as::<shapefile::PolylineZ, dbase::Record>() { Ok(_) => -5, Err(e) => errcode(&e) }
+                };
+                // (an empty file has nothing to mismatch on)
+                let res = if n == 0 && res == -5 { -1 } else if *i >= n && res == -4 { -1 } else { res };
+                json!({"ev": "nthfail", "i": i, "res": res})
+            }
             Call::Seek(k) => {
                 let res = match rdr.seek(*k) {
                     Ok(()) => 0,
@@ -390,6 +426,9 @@ fn all_calls(n: usize) -> Vec<Call> {
     for i in 0..=n {
         v.push(Call::Nth(i));
     }
+    for i in 0..n.min(3) {
+        v.push(Call::NthWrong(i));
+    }
     for k in 0..=n {
         v.push(Call::Seek(k));
     }
@@ -401,6 +440,7 @@ fn call_str(c: &Call) -> String {
     match c {
         Call::Iter(j) => format!("i{}", j),
         Call::Nth(i) => format!("n{}", i),
+        Call::NthWrong(i) => format!("w{}", i),
         Call::Seek(k) => format!("s{}", k),
         Call::Count => "c0".to_string(),
     }
